@@ -93,13 +93,63 @@ func ruleSetOrUpdateMapping(r *core.Run, p *core.Prog) map[int]string {
 		}
 		r.Check(rule, "AggFlowMap.SetOrUpdate:forwards-positionally", p.Rel(a.Decl.Pos()), okF && n == 2, "both the IPv4 and the IPv6 branch must forward (key, eA, eB, eC, eD) unchanged")
 		// the isIPv4 branch goes to the primary map
+		// per path: the outcome of the test of isIPv4 (any polarity / early return) and the map the call goes to
 		okB := false
-		core.Walk(a.Decl.Body, false, func(x ast.Node) bool {
-			if ifs, ok := x.(*ast.IfStmt); ok && core.ObjOf(ai, ifs.Cond) == asig.Params().At(1) {
-				okB = strings.Contains(nodeStr(ifs.Body), "PrimaryMap") && ifs.Else != nil && strings.Contains(nodeStr(ifs.Else), "SecondaryMap")
+		{
+			ag := core.GraphOf(a)
+			fPrim := p.FieldObj(pkgHashmap, "AggFlowMap", "PrimaryMap")
+			fSec := p.FieldObj(pkgHashmap, "AggFlowMap", "SecondaryMap")
+			if paths, okP := ag.Paths(core.Entry, core.Exit, 500); okP {
+				nV4, nV6 := 0, 0
+				okB = true
+				for _, path := range paths {
+					v4, known := false, false
+					target := ""
+					for i, id := range path {
+						nd := ag.Nodes[id]
+						if nd == nil {
+							continue
+						}
+						if tk, isC := ag.Taken(path, i); isC {
+							if atom, truth := normCond(nd.(ast.Expr), tk); core.ObjOf(ai, atom) == asig.Params().At(1) {
+								v4, known = truth, true
+							}
+							continue
+						}
+						for _, c := range core.Calls(nd, false) {
+							if core.CallName(ai, c) == pkgHashmap+".Map.SetOrUpdate" {
+								rx, _ := core.MethodCall(ai, c)
+								switch core.SelField(ai, rx) {
+								case fPrim:
+									target += "P"
+								case fSec:
+									target += "S"
+								default:
+									target += "?"
+								}
+							}
+						}
+					}
+					switch {
+					case known && v4:
+						nV4++
+						if target != "P" {
+							okB = false
+						}
+					case known && !v4:
+						nV6++
+						if target != "S" {
+							okB = false
+						}
+					default:
+						if target != "" {
+							okB = false
+						}
+					}
+				}
+				okB = okB && nV4 > 0 && nV6 > 0 && fPrim != nil && fSec != nil
 			}
-			return true
-		})
+		}
 		r.Check(rule, "AggFlowMap.SetOrUpdate:ipv4-to-primary", p.Rel(a.Decl.Pos()), okB, "isIPv4 must select the primary (IPv4) map, otherwise the secondary (IPv6) map")
 	}
 	return out
